@@ -4,8 +4,8 @@ import AbtemVerif.Gen.Blockwise
 open AbtemVerif AbtemVerif.Proto AbtemVerif.ExitPlanes AbtemVerif.Multislice AbtemVerif.Blockwise
 
 /- requests (one per line):
-   `eager <batch member ids> <ensAxis T/F> <planes> <num_slices> <configs>`
-   `lazy <batch chunks> <batch member ids> <ensAxis T/F> <planes> <num_slices> <configs>`
+   `eager <batch member ids> <ensAxis T/F> <planes> <num_slices> <configs> <incident batch in reciprocal space T/F>`
+   `lazy <batch chunks> <batch member ids> <ensAxis T/F> <planes> <num_slices> <configs> <reciprocal T/F>`
         → `ok <entry>;<entry>…` row-major over (configuration, exit index); entry = member histories joined by `|`
           (a history = incident member id followed by the slice ids applied, comma separated), `z` = none
         | `err <kind>` (the potential has no exit planes)
@@ -20,23 +20,27 @@ def showMembers : Option (List Hist) → String
 def table (entry : Nat → Nat → Option (List Hist)) (ncfg nplanes : Nat) : String :=
   ";".intercalate ((List.range ncfg).flatMap fun c => (List.range nplanes).map fun e => showMembers (entry c e))
 
+/-- the batch as `multislice_and_detect` uses it: every member after `ensure_real_space` (marker `0` when the batch was
+handed over in reciprocal space) -/
+def batch (ids : List Nat) (recip : Bool) : List Hist := ids.map fun i => ensureReal htoReal recip [i]
+
 def handle : List String → String
-  | ["eager", ids, ens, planes, nslices, configs] =>
+  | ["eager", ids, ens, planes, nslices, configs, recip] =>
     match parseList? parseNat? ids, parseBool? ens, parseList? parseInt? planes, parseNat? nslices,
-          parseListList? parseNat? configs with
-    | some ids, some ens, some pl, some ns, some cfgs =>
+          parseListList? parseNat? configs, parseBool? recip with
+    | some ids, some ens, some pl, some ns, some cfgs, some rc =>
       let p : Pot Nat := ⟨ens, pl, ns, cfgs⟩
       if pl.isEmpty then "err index_error"
-      else s!"ok {table (eagerEntry hstep hdetect (ids.map fun i => [i]) p) cfgs.length pl.length}"
-    | _, _, _, _, _ => "bad-op"
-  | ["lazy", chunks, ids, ens, planes, nslices, configs] =>
-    match parseList? parseNat? chunks, parseList? parseNat? ids, parseBool? ens, parseList? parseInt? planes,
-          parseNat? nslices, parseListList? parseNat? configs with
-    | some cA, some ids, some ens, some pl, some ns, some cfgs =>
-      let p : Pot Nat := ⟨ens, pl, ns, cfgs⟩
-      if pl.isEmpty then "err index_error"
-      else s!"ok {table (lazyEntry hstep hdetect cA (ids.map fun i => [i]) p) cfgs.length pl.length}"
+      else s!"ok {table (eagerEntry hstep hdetect (batch ids rc) p) cfgs.length pl.length}"
     | _, _, _, _, _, _ => "bad-op"
+  | ["lazy", chunks, ids, ens, planes, nslices, configs, recip] =>
+    match parseList? parseNat? chunks, parseList? parseNat? ids, parseBool? ens, parseList? parseInt? planes,
+          parseNat? nslices, parseListList? parseNat? configs, parseBool? recip with
+    | some cA, some ids, some ens, some pl, some ns, some cfgs, some rc =>
+      let p : Pot Nat := ⟨ens, pl, ns, cfgs⟩
+      if pl.isEmpty then "err index_error"
+      else s!"ok {table (lazyEntry hstep hdetect cA (batch ids rc) p) cfgs.length pl.length}"
+    | _, _, _, _, _, _, _ => "bad-op"
   | ["dims", a, b, c] =>
     match parseInt? a, parseInt? b, parseInt? c with
     | some a, some b, some c =>
